@@ -991,4 +991,62 @@ theorem pairId_text_digital_agree_dna (a b : Row) (ha : ∀ c ∈ a, dnaOK c) (h
 
 example : ∀ c ∈ ([65, 99, 45, 116, 46] : Row), dnaOK c := by decide
 
+/-! ## thresholds at or below 0: everything is linked — residue-free rows included (their identity is 0, not NaN) -/
+
+/-- `esl_msacluster_SingleLinkage` at maxid ≤ 0 puts ALL rows into one cluster, whatever they contain -/
+theorem msaSingleLinkage_one_cluster_at_zero (m : Mode) (maxid : ℚ) (hm : maxid ≤ 0) (rows : List Row) (u w : Nat)
+    (hu : u < rows.length) (hw : w < rows.length) :
+    clusterIndex (msaSingleLinkage m maxid rows) u = clusterIndex (msaSingleLinkage m maxid rows) w := by
+  rw [msaSingleLinkage_components m maxid rows u w hu hw]
+  apply Reach.single hu hw
+  have := (pid_range' m (rows.getD u []) (rows.getD w [])).1
+  simp only [decide_eq_true_eq]; linarith
+
+/-- `esl_msaweight_IDFilter` (text mode) at maxid ≤ 0 keeps exactly the first row -/
+theorem idFilterText_keeps_first_at_zero (maxid : ℚ) (hm : maxid ≤ 0) (rows : List Row) (hne : rows ≠ []) :
+    idFilterText maxid rows = [0] := by
+  unfold idFilterText idFilterOrder
+  obtain ⟨n, hn⟩ : ∃ n, rows.length = n + 1 := ⟨rows.length - 1, by have := List.length_pos_iff.mpr hne; omega⟩
+  rw [hn, List.range_succ_eq_map, filterGreedy]
+  simp only [List.any_nil, Bool.false_eq_true, if_false, List.nil_append]
+  apply filterGreedy_all_linked
+  intro r k
+  have := (pid_range' Mode.text (rows.getD r []) (rows.getD k [])).1
+  simp only [linked, leb_rat, decide_eq_true_eq]; linarith
+
+/-- at maxid ≤ 0 there is exactly one cluster and it holds all N rows, so every BLOSUM weight is 1 -/
+theorem blosum_all_one_at_zero (m : Mode) (maxid : ℚ) (hm : maxid ≤ 0) (rows : List Row) (hn : 2 ≤ rows.length) (i : Nat)
+    (hi : i < rows.length) (hi' : i < (blosum m maxid rows).length) : (blosum m maxid rows)[i] = 1 := by
+  have hsym : ∀ x y, (fun v w => linked m maxid (rows.getD v []) (rows.getD w [])) x y =
+      (fun v w => linked m maxid (rows.getD v []) (rows.getD w [])) y x := by
+    intro x y; simp only [linked]; rw [pid_comm]
+  have hone := msaSingleLinkage_one_cluster_at_zero m maxid hm rows
+  obtain ⟨hlt, hsurj⟩ := singleLinkage_numbering _ hsym rows.length
+  have hsz := singleLinkage_sizes _ hsym rows.length
+  have hms : singleLinkage (fun v w => linked m maxid (rows.getD v []) (rows.getD w [])) rows.length =
+      msaSingleLinkage m maxid rows := rfl
+  rw [hms] at hlt hsurj hsz
+  -- exactly one cluster
+  have hlen : (msaSingleLinkage m maxid rows).length = 1 := by
+    have h0 : clusterIndex (msaSingleLinkage m maxid rows) 0 < (msaSingleLinkage m maxid rows).length := hlt 0 (by omega)
+    by_contra hne
+    have h2 : 2 ≤ (msaSingleLinkage m maxid rows).length := by omega
+    obtain ⟨u0, hu0, e0⟩ := hsurj 0 (by omega)
+    obtain ⟨u1, hu1, e1⟩ := hsurj 1 (by omega)
+    have := hone u0 u1 hu0 hu1
+    omega
+  rw [blosum_formula m maxid rows (by omega) i hi hi', hlen]
+  have hci : clusterIndex (msaSingleLinkage m maxid rows) i = 0 := by
+    have := hlt i hi
+    omega
+  rw [hci]
+  have hsum := hsz.2
+  obtain ⟨c, hc⟩ := List.length_eq_one_iff.mp hlen
+  rw [hc] at hsum ⊢
+  simp only [List.map_cons, List.map_nil, List.sum_cons, List.sum_nil, Nat.add_zero] at hsum
+  simp only [List.getD_cons_zero, List.length_cons, List.length_nil, Nat.cast_one, div_one]
+  rw [hsum]
+  have : ((rows.length : ℕ) : ℚ) ≠ 0 := by exact_mod_cast (by omega : rows.length ≠ 0)
+  exact div_self this
+
 end EaselModel.Props.C16
